@@ -1052,6 +1052,7 @@ type GCReport struct {
 	GCErr      string
 	LocksAfter []string // locks with start ts <= safe point found in the store right after a successful GC
 	BelowErr   string   // error class of a read below the safe point ("" = served)
+	BelowSeq   []string // repeated reads of one snapshot / one transaction below the safe point: "<kind>(<key>)=<class>"
 	AtErr      string   // error of a read at the safe point
 	// a read (get / batch get / scan, by the seed) at the safe point during which the store learns a greater safe point
 	MovedKind    string
@@ -1139,6 +1140,37 @@ func (w *World) runGC(plan *GCPlan) *GCReport {
 			_, err = st.GetSnapshot(rep.SafePoint).Get(ctx, []byte("a"))
 			if err != nil && !tikverr.IsErrNotFound(err) {
 				rep.AtErr = classify(err)
+			}
+			// 3b. ONE snapshot (and one transaction) below the safe point, read repeatedly through different paths: a
+			// read that was refused must stay refused (nothing a refused read left in the snapshot cache may be served)
+			hs := simkit.NewHasher(uint64(plan.Seed), "below-seq")
+			below := st.GetSnapshot(rep.SafePoint - 1)
+			btxn, berr := st.Begin(tikv.WithStartTS(rep.SafePoint - 1))
+			bk := func(i int) []byte { return w.allKeys[hs.Intn(fmt.Sprintf("key%d", i), len(w.allKeys))] }
+			for i := 0; i < 4; i++ {
+				var e error
+				kind := []string{"get", "bget", "txnget", "get"}[hs.Intn(fmt.Sprintf("kind%d", i), 4)]
+				k := bk(i / 2) // the same key twice in a row, most of the time
+				switch {
+				case kind == "bget":
+					_, e = below.BatchGet(ctx, [][]byte{k, bk(i + 7)})
+				case kind == "txnget" && berr == nil:
+					_, e = btxn.Get(ctx, k)
+				default:
+					kind = "get"
+					_, e = below.Get(ctx, k)
+				}
+				c := "served"
+				if e != nil && !tikverr.IsErrNotFound(e) {
+					c = classify(e)
+					if _, ok := errors.Cause(e).(*tikverr.ErrTxnAbortedByGC); ok {
+						c = "aborted-by-gc"
+					}
+				}
+				rep.BelowSeq = append(rep.BelowSeq, fmt.Sprintf("%s(%q)=%s", kind, k, c))
+			}
+			if berr == nil {
+				_ = btxn.Rollback()
 			}
 			// 4. the store learns a greater safe point while a read at the old one is in flight
 			gc := len(w.Stores) - 1
